@@ -123,7 +123,12 @@ func CmdCheck(args []string) int {
 		isRoot[r] = true
 	}
 	smtDir, _ := os.MkdirTemp("", "govc-smt-")
-	defer os.RemoveAll(smtDir)
+	if keep := os.Getenv("GOVC_KEEP"); keep != "" {
+		smtDir = keep
+		os.MkdirAll(keep, 0o755)
+	} else {
+		defer os.RemoveAll(smtDir)
+	}
 
 	results := map[string]*FnResult{}
 	var order []string
